@@ -963,7 +963,9 @@ def behave_py(b, n, message, interp):
         return message.get("message_type") != "eliot:destination_failure"
     if name == "on_atom":
         a = norm_atom(b[1])
-        return any(canon_value(v) == ["a", a] for v in message.values())
+        # application field values only: library-made strings (e.g. the default action_type "") are not atoms
+        return any(canon_value(v) == ["a", a] for k, v in message.items()
+                   if isinstance(k, str) and k[:1] == "f" and k[1:].isdigit())
     raise ValueError(b)
 
 
@@ -1197,7 +1199,7 @@ class Gen(object):
             fs = fs + [[19, {"i": h}]]
             succ = succ + [[19, {"i": h}]]
             body = self.stmts(depth - 1, enclosing + [h], c)
-            if rng.random() < self.p_finish_inside and not (body and body[-1][0] == "raise"):
+            if sers is None and rng.random() < self.p_finish_inside and not (body and body[-1][0] == "raise"):
                 # finish() called as the last thing inside the action's own block (the block's exit then finishes again: no-op)
                 body = body + [["finish_again", h, self.exn() if rng.random() < 0.5 else None]]
             self.finished.append(h)
